@@ -42,6 +42,9 @@ def extra_variants():
     out.append(dict(fw, name="x-fw-routes-only", extra="fw-routes"))
     # generated node sets (office LANs): one edge switch; two edge switches behind a core switch; non-default bandwidths
     out.append(dict(base, name="x-node-sets", extra="node-sets"))
+    # the top-level ``defaults`` section read by PrimaiteGame.from_config: zero and non-zero values
+    out.append(dict(base, name="x-defaults-zero", extra="defaults", defaults_value=0))
+    out.append(dict(base, name="x-defaults-four", extra="defaults", defaults_value=4))
     return out
 
 
@@ -102,6 +105,10 @@ def build_cfg(v):
             {"type": "office-lan", "lan_name": "large", "subnet_base": 32, "pcs_ip_block_start": 20, "num_pcs": 47, "bandwidth": 40},
             {"type": "office-lan", "lan_name": "dflt", "subnet_base": 33, "pcs_ip_block_start": 5, "num_pcs": 24},
         ]
+    if v.get("extra") == "defaults":
+        d = v["defaults_value"]
+        cfg["defaults"] = {"node_scan_duration": d, "folder_scan_duration": d, "folder_restore_duration": d,
+                           "service_fix_duration": d, "service_restart_duration": d, "service_install_duration": d}
     if v.get("extra") == "green":
         g = [a for a in cfg["agents"] if a["ref"] == "green_1"][0]
         g["agent_settings"]["action_probabilities"] = {2: 0.2, 0: 0.3, 1: 0.5}
@@ -295,6 +302,23 @@ def check_inventory(name, cfg, after_setup=False, built_from=None):
             dr = (nc.get("default_route") or {}).get("next_hop_ip_address")
             eq("routes", "default-route", "%s default route" % hn, dr,
                None if node.route_table.default_route is None else str(node.route_table.default_route.next_hop_ip_address))
+        # simulation defaults (top-level ``defaults`` mapping, the keys PrimaiteGame.from_config reads)
+        dflt = cfg.get("defaults") or {}
+        if "node_scan_duration" in dflt:
+            eq("defaults", "node_scan_duration", "%s node_scan_duration" % hn, dflt["node_scan_duration"], node.config.node_scan_duration)
+        for key, attr in (("folder_scan_duration", "scan_duration"), ("folder_restore_duration", "restore_duration")):
+            if key in dflt:
+                fo = node.file_system.create_folder("c20-probe-" + key)  # a folder created now gets the configured default
+                eq("defaults", key, "%s %s of a new folder" % (hn, key), dflt[key], getattr(fo, attr))
+                node.file_system.delete_folder("c20-probe-" + key)
+        for sc in nc.get("services", []) or []:
+            sw = node.software_manager.software.get(sc["type"])
+            if sw is None:
+                continue
+            if "service_fix_duration" in dflt and "fixing_duration" not in (sc.get("options") or {}):
+                eq("defaults", "service_fix_duration", "%s %s fixing_duration" % (hn, sc["type"]), dflt["service_fix_duration"], sw.config.fixing_duration)
+            if "service_restart_duration" in dflt:
+                eq("defaults", "service_restart_duration", "%s %s restart_duration" % (hn, sc["type"]), dflt["service_restart_duration"], sw.restart_duration)
         # software
         for kind, reg in (("services", node.services), ("applications", node.applications)):
             for sc in nc.get(kind, []) or []:
